@@ -78,13 +78,64 @@ func floatOfDigits(neg bool, digs []byte, dp int) float64 {
 	return v
 }
 
+// usedReceiver > 0: every Read goes into a receiver that already holds an earlier value (variant 1 or 2) instead of a new
+// variable. Read overwrites its receiver, so what it yields must not depend on what the receiver held.
+var usedReceiver int
+
 func runTypes(in Sx) Sx {
+	usedReceiver = 0
+	fresh := runTypesOnce(in)
+	for v := 1; v <= 2; v++ {
+		usedReceiver = v
+		again := runTypesOnce(in)
+		usedReceiver = 0
+		if SxString(again) != SxString(fresh) {
+			return L(Sym("reused"), again)
+		}
+	}
+	return fresh
+}
+
+func recvInt() quickfix.FIXInt {
+	return quickfix.FIXInt([]int{0, 987654, -3}[usedReceiver])
+}
+func recvBool() quickfix.FIXBoolean { return quickfix.FIXBoolean(usedReceiver == 1) }
+func recvTS() quickfix.FIXUTCTimestamp {
+	switch usedReceiver {
+	case 1:
+		return quickfix.FIXUTCTimestamp{Time: time.Unix(1455055636, 123456789).UTC(), Precision: quickfix.Nanos}
+	case 2:
+		return quickfix.FIXUTCTimestamp{Time: time.Unix(1455055636, 0).UTC(), Precision: quickfix.Seconds}
+	}
+	return quickfix.FIXUTCTimestamp{}
+}
+func recvFloat() quickfix.FIXFloat   { return quickfix.FIXFloat([]float64{0, 3.25, -1e9}[usedReceiver]) }
+func recvString() quickfix.FIXString { return quickfix.FIXString([]string{"", "earlier", "x"}[usedReceiver]) }
+func recvBytes() quickfix.FIXBytes {
+	return quickfix.FIXBytes([][]byte{nil, []byte("earlier"), {1, 2}}[usedReceiver])
+}
+func recvDec() quickfix.FIXDecimal {
+	if usedReceiver == 0 {
+		return quickfix.FIXDecimal{}
+	}
+	return quickfix.FIXDecimal{Decimal: decimal.New(int64(12345*usedReceiver), -3), Scale: int32(usedReceiver)}
+}
+func recvUDec() quickfix.FIXUDecimal {
+	var v quickfix.FIXUDecimal
+	if usedReceiver > 0 {
+		_ = v.Read([]byte([]string{"", "12.345", "7"}[usedReceiver]))
+		v.Scale = uint8(usedReceiver)
+	}
+	return v
+}
+
+func runTypesOnce(in Sx) Sx {
 	l := in.(List)
 	switch AtomSym(l[0]) {
 	case "int-read":
 		b := AtomBytes(l[1])
 		return Guard(func() Sx {
-			var v quickfix.FIXInt
+			v := recvInt()
 			if err := v.Read(b); err != nil {
 				return ErrV()
 			}
@@ -94,7 +145,7 @@ func runTypes(in Sx) Sx {
 		n := AtomInt64(l[1])
 		return Guard(func() Sx {
 			w := quickfix.FIXInt(n).Write()
-			var v quickfix.FIXInt
+			v := recvInt()
 			if err := v.Read(w); err != nil {
 				return L(Bytes(w), ErrV())
 			}
@@ -103,7 +154,7 @@ func runTypes(in Sx) Sx {
 	case "bool-read":
 		b := AtomBytes(l[1])
 		return Guard(func() Sx {
-			var v quickfix.FIXBoolean
+			v := recvBool()
 			if err := v.Read(b); err != nil {
 				return ErrV()
 			}
@@ -112,7 +163,7 @@ func runTypes(in Sx) Sx {
 	case "bool-write":
 		return Guard(func() Sx {
 			w := quickfix.FIXBoolean(AtomBool(l[1])).Write()
-			var v quickfix.FIXBoolean
+			v := recvBool()
 			if err := v.Read(w); err != nil {
 				return L(Bytes(w), ErrV())
 			}
@@ -121,7 +172,7 @@ func runTypes(in Sx) Sx {
 	case "ts-read":
 		b := AtomBytes(l[1])
 		return Guard(func() Sx {
-			var f quickfix.FIXUTCTimestamp
+			f := recvTS()
 			if err := f.Read(b); err != nil {
 				return ErrV()
 			}
@@ -136,7 +187,7 @@ func runTypes(in Sx) Sx {
 			}
 			f := quickfix.FIXUTCTimestamp{Time: tm, Precision: quickfix.TimestampPrecision(p)}
 			w := f.Write()
-			var r quickfix.FIXUTCTimestamp
+			r := recvTS()
 			if err := r.Read(w); err != nil {
 				return L(Bytes(w), ErrV())
 			}
@@ -145,7 +196,7 @@ func runTypes(in Sx) Sx {
 	case "float-read":
 		b := AtomBytes(l[1])
 		return Guard(func() Sx {
-			var v quickfix.FIXFloat
+			v := recvFloat()
 			if err := v.Read(b); err != nil {
 				return ErrV()
 			}
@@ -156,7 +207,7 @@ func runTypes(in Sx) Sx {
 		return Guard(func() Sx {
 			v := floatOfDigits(neg, digs, dp)
 			w := quickfix.FIXFloat(v).Write()
-			var r quickfix.FIXFloat
+			r := recvFloat()
 			same := false
 			if err := r.Read(w); err == nil {
 				same = math.Float64bits(float64(r)) == math.Float64bits(v)
@@ -166,7 +217,7 @@ func runTypes(in Sx) Sx {
 	case "float-canon":
 		b := AtomBytes(l[1])
 		return Guard(func() Sx {
-			var v quickfix.FIXFloat
+			v := recvFloat()
 			if err := v.Read(b); err != nil {
 				return ErrV()
 			}
@@ -175,7 +226,7 @@ func runTypes(in Sx) Sx {
 	case "str-rt":
 		b := AtomBytes(l[1])
 		return Guard(func() Sx {
-			var v quickfix.FIXString
+			v := recvString()
 			if err := v.Read(b); err != nil {
 				return ErrV()
 			}
@@ -184,7 +235,7 @@ func runTypes(in Sx) Sx {
 	case "bytes-rt":
 		b := AtomBytes(l[1])
 		return Guard(func() Sx {
-			var v quickfix.FIXBytes
+			v := recvBytes()
 			if err := v.Read(b); err != nil {
 				return ErrV()
 			}
@@ -193,7 +244,7 @@ func runTypes(in Sx) Sx {
 	case "dec-read":
 		b, scale := AtomBytes(l[1]), AtomInt(l[2])
 		return Guard(func() Sx {
-			var v quickfix.FIXDecimal
+			v := recvDec()
 			if err := v.Read(b); err != nil {
 				return ErrV()
 			}
@@ -210,13 +261,13 @@ func runTypes(in Sx) Sx {
 	case "udec-read":
 		b, scale := AtomBytes(l[1]), AtomInt(l[2])
 		return Guard(func() Sx {
-			var v quickfix.FIXUDecimal
+			v := recvUDec()
 			if err := v.Read(b); err != nil {
 				return ErrV()
 			}
 			v.Scale = uint8(scale)
 			w := v.Write()
-			var r quickfix.FIXUDecimal
+			r := recvUDec()
 			var rr Sx = ErrV()
 			if err := r.Read(w); err == nil {
 				rr = Str(r.Decimal.String())
